@@ -64,7 +64,10 @@ def _m_scale(case, v, args):
     c = v.get("scale")
     if c is None or c >= 1:
         return False
-    if v.get("scaled") != [False, None] or not v.get("unscaled") or v["unscaled"][0] is not True:
+    if not v.get("unscaled") or v["unscaled"][0] is not True:
+        return False
+    if v.get("optimal_within_cap") is not True:
+        # the check brute-forced the family of walks within the cap: the answer is explained only if it is the optimum there
         return False
     import math
     return any(math.floor(a[2] * c + 1e-12) < a[2] for a in _scc_arcs(case))
